@@ -89,6 +89,15 @@ func (q *UdpTaskQueue) popOverflowTask() (UdpTask, bool) {
 	q.enqueueMu.Lock()
 	defer q.enqueueMu.Unlock()
 
+	// The channel may have filled up (and spilled into overflow) since the
+	// caller found it empty. Under the lock every task in the channel is older
+	// than every task in overflow, so drain the channel first to keep order.
+	select {
+	case task := <-q.ch:
+		return task, true
+	default:
+	}
+
 	if len(q.overflow) == 0 {
 		q.overflowMode = false
 		return nil, false
